@@ -92,7 +92,9 @@ def _run_task(t):
             'label': label, 'root': root, 'args': args, 'opts': opts,
             'paths': st.paths, 'aborted': st.paths_aborted, 'instrs': st.instrs, 'queries': st.queries,
             'solver_s': st.solver_s, 'obligations': st.obligations, 'discharged': st.discharged,
-            'trivial': st.trivial, 'unknown': st.unknown, 'reach': st.reach, 'funcs': sorted(st.funcs),
+            'trivial': st.trivial, 'unknown': st.unknown, 'reach': st.reach, 'sched_switches': getattr(st, 'sched_switches', 0),
+            'goroutines': getattr(st, 'goroutines', 0), 'foreign': getattr(st, 'foreign', 0), 'uf_refined': getattr(st, 'uf_refined', 0),
+            'cvc5_queries': getattr(st, 'cvc5_queries', 0), 'unknown_branches': getattr(st, 'unknown_branches', 0), 'funcs': sorted(st.funcs),
             'samples': st.samples, 'forks': st.forks, 'oblig_tags': st.oblig_tags,
             'violations': [v.to_json() for v in E.violations],
             'inconclusive': E.inconclusive[:10], 'left': left, 'wall': time.time() - t0,
@@ -302,7 +304,8 @@ def run_check(spec, tier='quick', seed=0, jobs=None, keep=False, verbose=True):
         pool = ctx.Pool(min(jobs, max(1, len(tasks))) if len(tasks) < jobs else jobs, initializer=_worker_init,
                         initargs=(jpath, base_opts))
         agg = {'paths': 0, 'aborted': 0, 'instrs': 0, 'queries': 0, 'solver_s': 0.0, 'obligations': 0, 'discharged': 0,
-               'trivial': 0, 'unknown': 0, 'forks': 0}
+               'trivial': 0, 'unknown': 0, 'forks': 0, 'sched_switches': 0, 'goroutines': 0, 'foreign': 0, 'uf_refined': 0,
+               'cvc5_queries': 0, 'unknown_branches': 0}
         reach = {}
         oblig_tags = {}
         other_tags = {}
@@ -585,6 +588,12 @@ def run_check(spec, tier='quick', seed=0, jobs=None, keep=False, verbose=True):
             'paths_aborted_infeasible_or_assumption': agg['aborted'],
             'forks': agg['forks'],
             'unknown_answers': agg['unknown'],
+            'branch_feasibility_unknown_kept': agg['unknown_branches'],
+            'cvc5_int_encoding_queries': agg['cvc5_queries'],
+            'sat_under_uninterpreted_function_refuted_with_definition': agg['uf_refined'],
+            'assertions_owned_by_other_checks_skipped': agg['foreign'],
+            'goroutines_run': agg['goroutines'],
+            'goroutine_switches': agg['sched_switches'],
             'loops_cut': 0,
             'reach_tags': reach,
             'obligation_tags': oblig_tags,
